@@ -12,7 +12,7 @@ namespace JRV.Pool.C11L
 
 /-- Actions of the environment: a client begins an API call; a task body returns or raises. -/
 def envOp : Op → Bool
-  | .callStart | .callStop | .callClear | .callJoin | .callJoinT | .callEnqueue | .callWait _ | .taskEnd _ => true
+  | .callStart | .callStop | .callClear | .callJoin | .callJoinT | .callEnqueue | .callWait _ | .callDone _ | .taskEnd _ => true
   | _ => false
 
 /-- The worker's next operation is `lock.acquire`. -/
